@@ -38,6 +38,7 @@ def run_at(src_by_name, order, env, cwd, outdir):
         out = p.stdout.decode('utf-8', 'replace')
         for n in order:
             per[n] = sorted(l.replace(d, '<T>') for l in out.splitlines() if ('/' + n + '.rsyn') in l)
+        per['__all__'] = [l.replace(d, '<T>') for l in out.splitlines()]
         return res, per, p.returncode, p.stderr.decode('utf-8', 'replace')
     finally:
         shutil.rmtree(d, ignore_errors=True)
@@ -182,7 +183,9 @@ def campaign(c):
                 except UnicodeDecodeError:
                     rf = None
                 if rf is not None:
-                    for what, txt in (('reflow', rf), ('reflow+edits', variants(r, rf)), ('reflow+blank-lines', '\n\n'.join(rf.split('\n')))):
+                    from ..gen import join_lines
+                    joined = join_lines(src, r, (2, 3)).decode('utf-8')
+                    for what, txt in (('reflow', rf), ('reflow+edits', variants(r, rf)), ('reflow+blank-lines', '\n\n'.join(rf.split('\n'))), ('joined-lines', joined)):
                         if what == 'reflow+edits':
                             im3, mo3 = progdiff.run_both(c, txt.encode('utf-8'))
                             progdiff.compare(c, txt.encode('utf-8'), im3, mo3, 'layout-variant')
@@ -209,6 +212,23 @@ def campaign(c):
             c.violation('det:warning-text', 'the warnings printed for discarded values differ from run to run: %s' % (diff[0][:160] if diff else o[1]), dict(src=discard))
             break
     c.case(('discard',), dict(kind='discarded-values', lines=len(outs[0][0])))
+    # failing programs with a rich environment (many names sharing prefixes, many imports): the diagnostics of near-miss
+    # references (unbound prefix of several variables, unknown module / member / named argument) must be the same on every run
+    pre = 'import ipv4;\nimport dns;\nimport eth;\nimport text;\nimport std;\n' + ''.join('let conn%d = ipv4::tcp::flow(1.2.3.%d:1, 5.6.7.8:2);\n' % (k, k) for k in range(1, 9)) + \
+          ''.join('let v%s = %d;\n' % (x, k) for k, x in enumerate('abcdefgh'))
+    for bad in ['conn.client_message("x");', 'v;', 'conn1.client_mess("x");', 'ipv4::tc::flow(1.2.3.4:1, 5.6.7.8:2);', 'dn::host(1.2.3.4, "a");',
+                'ipv4::tcp::flow(1.2.3.4:1, 5.6.7.8:2, cl_se: 5);', 'let conn3 = 1;', 'import et;', 'text::conca("a");', 'conn1.x.y;', 'std::be16(va, vb, vc);']:
+        srcb = (pre + bad + '\n').encode()
+        outs = set()
+        for k in range(8):
+            res, per, rc, err = run_at({'d': srcb}, ['d'], ENVS[k % len(ENVS)], None, 'o')
+            lines = tuple(re.sub(r'\S*/(\w+\.(?:rsyn|pcap))', r'\1', l) for l in per['__all__'])    # everything printed, not only the lines naming the file
+            outs.add((rc, lines, res['d']))
+        if len(outs) != 1:
+            c.violation('det:diagnostics-vary', 'the same failing program produced %d different outcomes/diagnostics over 8 runs: %s' % (len(outs), sorted(str(o[1])[:120] for o in outs)[:3]), dict(src=srcb.decode()))
+        im, mo = progdiff.run_both(c, srcb)
+        progdiff.compare(c, srcb, im, mo, 'diag-stability')
+        c.case(('diagstab', bad), dict(kind='diag-stability', stmt=bad))
     # the output must not depend on what was at the output path before: longer stale file, same-stem batch
     d = tempfile.mkdtemp(prefix='rso')
     try:
